@@ -27,6 +27,7 @@ var parts = []part{
 	{"frame", c05frame.Exec, c05frame.Gen},
 	{"val", c05val.Exec, c05val.Gen},
 	{"disp", c05disp.Exec, c05disp.Gen},
+	{"ring", c05ts.RingExec, c05ts.RingGen},
 }
 
 func exec(op string) string {
